@@ -205,9 +205,51 @@ type dispatchRow struct {
 	Reads              []string
 }
 
-func c02DispatchTable(p *Prog, fi *FuncInfo, reader string) ([]dispatchRow, error) {
+// snapshotReaders: the per-store readers of the core, recognised by shape rather than by name -- functions of
+// usecase/core that are given a transaction store and a snapshot point (*sequence.Seq) and select a version with
+// Latest / LastBefore themselves or in a helper of the package.
+func snapshotReaders(p *Prog) []string {
+	var res []string
+	for _, k := range sortedFuncKeys(p) {
+		fi := p.Funcs[k]
+		if fi.Decl == nil || fi.Decl.Body == nil || shortPath(fi.Pkg.PkgPath) != pkgCoreUC {
+			continue
+		}
+		hasStore, hasPoint := false, false
+		sig := fi.Sig()
+		for i := 0; i < sig.Params().Len(); i++ {
+			t := sig.Params().At(i).Type().String()
+			if strings.HasSuffix(t, "internal/model/core.Transaction") && strings.HasPrefix(t, "*") {
+				hasStore = true
+			}
+			if strings.HasSuffix(t, "sequence.Seq") && strings.HasPrefix(t, "*") {
+				hasPoint = true
+			}
+		}
+		if !hasStore || !hasPoint || sig.Results().Len() != 1 || !strings.HasSuffix(sig.Results().At(0).Type().String(), "internal/model.File") {
+			continue // a reader returns the version(s) it selected
+		}
+		selects := false
+		for _, cand := range localClosure(p, k) {
+			cf := p.FlatOf(cand)
+			if len(cf.CallNodes(kFileLatest)) > 0 || len(cf.CallNodes(kLastBefore)) > 0 {
+				selects = true
+			}
+		}
+		if selects {
+			res = append(res, k)
+		}
+	}
+	return res
+}
+
+// c02DispatchTable evaluates core.Get / core.GetFiles (helpers, generic helpers and reader callbacks spliced in)
+// for the four shapes of the filter and records which store each reader call is given and whether it is given a
+// snapshot point. Stores are told apart by value: the registry lookup of the caller's own id, of the filter's id,
+// or the all-store.
+func c02DispatchTable(p *Prog, fi *FuncInfo, readers ...string) ([]dispatchRow, error) {
 	info := fi.Pkg.TypesInfo
-	f := p.FlatOf(fi)
+	f := p.FlatInlExcept(fi, readers...)
 	var filterObj, txIdObj types.Object
 	for _, fld := range fi.Decl.Type.Params.List {
 		for _, nm := range fld.Names {
@@ -226,81 +268,117 @@ func c02DispatchTable(p *Prog, fi *FuncInfo, reader string) ([]dispatchRow, erro
 	if filterObj == nil {
 		return nil, fmt.Errorf("no filter parameter")
 	}
-	// variables assigned from txStore.Get(X): classify X
-	storeSrc := map[types.Object]string{}
-	ast.Inspect(fi.Decl.Body, func(x ast.Node) bool {
-		if as, ok := x.(*ast.AssignStmt); ok && len(as.Rhs) == 1 && len(as.Lhs) == 2 {
-			if c, ok := ast.Unparen(as.Rhs[0]).(*ast.CallExpr); ok && p.callIs(fi.Pkg, c, "(*internal/model/core.Transactions).Get") && len(c.Args) == 1 {
-				src := "store(" + types.ExprString(c.Args[0]) + ")"
-				if objOf(info, c.Args[0]) == txIdObj {
-					src = "own-store"
-				} else if strings.Contains(types.ExprString(c.Args[0]), "filter.TxId") || strings.Contains(types.ExprString(c.Args[0]), ".TxId") {
-					src = "filter-store"
-				}
-				storeSrc[objOf(info, as.Lhs[0])] = src
-			}
-		}
-		return true
-	})
 	var rows []dispatchRow
 	for _, txSet := range []bool{false, true} {
 		for _, bsSet := range []bool{false, true} {
 			fv := &Val{Fields: map[string]*Val{"TxId": {Nil: true}, "BeforeSeq": {Nil: true}}}
 			if txSet {
-				fv.Fields["TxId"] = &Val{Ptr: strVal("t")}
+				fv.Fields["TxId"] = &Val{Ptr: strVal("filter-id")}
 			}
 			if bsSet {
 				fv.Fields["BeforeSeq"] = &Val{Ptr: intVal(5)}
 			}
 			env := &Env{P: p, Pkg: fi.Pkg, Vars: map[types.Object]*Val{filterObj: fv}}
+			if txIdObj != nil {
+				env.Vars[txIdObj] = strVal("own-id")
+			}
+			row := dispatchRow{TxIdSet: txSet, BeforeSet: bsSet}
+			env.Multi = func(env *Env, c *ast.CallExpr) ([]*Val, bool) {
+				if env.Pkg == fi.Pkg && p.callIs(fi.Pkg, c, "(*internal/model/core.Transactions).Get") && len(c.Args) == 1 {
+					id := env.eval(c.Args[0])
+					tag := "store(" + types.ExprString(c.Args[0]) + ")"
+					if id != nil && id.C != nil && id.C.Kind() == constant.String {
+						switch constant.StringVal(id.C) {
+						case "own-id":
+							tag = "own-store"
+						case "filter-id":
+							tag = "filter-store"
+						}
+					}
+					return []*Val{{Tag: tag}, boolVal(true)}, true // the store exists
+				}
+				return nil, false
+			}
 			env.Hook = func(env *Env, e ast.Expr) (*Val, bool) {
 				if env.Pkg != fi.Pkg {
 					return nil, false
 				}
-				if id, ok := e.(*ast.Ident); ok {
-					if o := objOf(info, id); o != nil {
-						if bt, ok := o.Type().(*types.Basic); ok && bt.Kind() == types.Bool && o != nil {
-							if _, isParam := env.Vars[o]; !isParam {
-								return boolVal(true), true // the `ok` of txStore.Get: store exists
+				switch x := e.(type) {
+				case *ast.UnaryExpr:
+					if x.Op == token.AND && strings.HasSuffix(types.ExprString(x.X), ".allStore") {
+						return &Val{Tag: "all-store"}, true
+					}
+				case *ast.CallExpr:
+					isReader := len(readers) > 0 && p.callIs(fi.Pkg, x, readers...)
+					if !isReader {
+						// a reader handed on as a function value and called through the parameter it is bound to
+						if o := objOf(info, x.Fun); o != nil && f.Alias[o] != nil {
+							var id *ast.Ident
+							switch a := ast.Unparen(f.Alias[o]).(type) {
+							case *ast.Ident:
+								id = a
+							case *ast.SelectorExpr:
+								id = a.Sel
+							}
+							if id != nil {
+								if fn, ok := info.Uses[id].(*types.Func); ok {
+									if h := p.funcOfObj(fn); h != nil {
+										for _, rk := range readers {
+											if rk == h.Key {
+												isReader = true
+											}
+										}
+									}
+								}
 							}
 						}
+					}
+					if isReader && len(x.Args) >= 2 {
+						store, point := "?", "snapshot-point"
+						for _, a := range x.Args {
+							tv, ok := info.Types[a]
+							if !ok {
+								continue
+							}
+							ts := tv.Type.String()
+							switch {
+							case strings.HasSuffix(ts, "internal/model/core.Transaction"):
+								if v, err := env.Eval(a); err == nil && v != nil && v.Tag != "" {
+									store = v.Tag
+								} else {
+									store = types.ExprString(a)
+								}
+							case strings.HasSuffix(ts, "sequence.Seq") || isNilIdent(info, a):
+								v, err := env.Eval(a)
+								switch {
+								case err != nil || v == nil:
+									point = types.ExprString(a)
+								case v.Nil:
+									point = "latest"
+								case v.Ptr != nil && v.Ptr.C != nil && v.Ptr.C.ExactString() == "5":
+									point = "snapshot-point"
+								default:
+									point = types.ExprString(a)
+								}
+							}
+						}
+						row.Reads = append(row.Reads, store+":"+point)
+						return &Val{Tag: "read"}, true
 					}
 				}
 				return nil, false
 			}
-			visited, _, err := f.WalkPath(env)
+			f.WalkExprStmts = true
+			_, _, err := f.WalkPath(env)
+			f.WalkExprStmts = false
 			if err != nil {
 				// accepted when the walk stopped after the dispatch: no reader call is reachable from the stop node
 				stop := f.WalkStop
 				later := f.Reach([]int{stop}, nil, nil)
-				for _, id := range f.CallNodes(reader) {
+				for _, id := range f.CallNodes(readers...) {
 					if later[id] {
 						return nil, err
 					}
-				}
-			}
-			row := dispatchRow{TxIdSet: txSet, BeforeSet: bsSet}
-			for _, id := range visited {
-				for _, c := range callsIn(f.Nodes[id].Ast, false) {
-					if !p.callIs(fi.Pkg, c, reader) || len(c.Args) < 2 {
-						continue
-					}
-					store := types.ExprString(c.Args[0])
-					if strings.Contains(store, "allStore") {
-						store = "all-store"
-					} else if o := objOf(info, c.Args[0]); o != nil && storeSrc[o] != "" {
-						store = storeSrc[o]
-					}
-					bs := c.Args[len(c.Args)-1]
-					point := "snapshot-point"
-					if isNilIdent(info, bs) {
-						point = "latest"
-					} else if !strings.Contains(types.ExprString(bs), "BeforeSeq") {
-						point = types.ExprString(bs)
-					} else if !bsSet {
-						point = "latest" // a nil pointer is passed: the reader takes Latest
-					}
-					row.Reads = append(row.Reads, store+":"+point)
 				}
 			}
 			sort.Strings(row.Reads)
@@ -316,8 +394,13 @@ func c02Dispatch(p *Prog, r *Report) {
 		r.Undecided("C02.b", "core.Get/GetFiles", "", "not found")
 		return
 	}
-	t1, err1 := c02DispatchTable(p, g, kGetFileFromTx)
-	t2, err2 := c02DispatchTable(p, gf, kGetFilesFromTx)
+	readers := snapshotReaders(p)
+	if len(readers) == 0 {
+		r.Undecided("C02.b", "core.Get/GetFiles#dispatch", p.pos(g.Decl), "no per-store reader (a function given a store and a snapshot point that selects with Latest / LastBefore) found in usecase/core")
+		return
+	}
+	t1, err1 := c02DispatchTable(p, g, readers...)
+	t2, err2 := c02DispatchTable(p, gf, readers...)
 	if err1 != nil || err2 != nil {
 		r.Undecided("C02.b", "core.Get/GetFiles#dispatch", p.pos(g.Decl), fmt.Sprintf("dispatch not evaluable: %v %v", err1, err2))
 		return
@@ -340,11 +423,8 @@ func c02Dispatch(p *Prog, r *Report) {
 		}
 	}
 	// per-store readers: LastBefore iff a snapshot point is given
-	for _, root := range []string{kGetFileFromTx, kGetFilesFromTx} {
-		if p.Func(root) == nil {
-			r.Undecided("C02.b", root, "", "not found")
-			continue
-		}
+	r.Floor("C02.b", "per-store-readers", len(readers), 2)
+	for _, root := range readers {
 		// the selection may live in a package-local helper of the reader
 		var fi *FuncInfo
 		for _, cand := range localClosure(p, root) {
@@ -624,6 +704,7 @@ func c02Unlink(p *Prog, r *Report) {
 		f := p.FlatInl(fi)
 		// node variables assigned from pops; pops handed straight to an unlinking call
 		popVars := map[types.Object]bool{}
+		popLhs := map[int]ast.Expr{}
 		var popNodes []int
 		direct := 0
 		for _, n := range f.Nodes {
@@ -634,10 +715,20 @@ func c02Unlink(p *Prog, r *Report) {
 				if !p.callIs(fi.Pkg, pc, "(*internal/model/core.file).PopBack", "(*internal/model/core.file).PopFront") {
 					continue
 				}
-				if as, ok := n.Ast.(*ast.AssignStmt); ok && len(as.Rhs) == 1 && len(as.Lhs) == 1 && ast.Unparen(as.Rhs[0]) == ast.Expr(pc) {
-					if o := objOf(info, as.Lhs[0]); o != nil {
-						popVars[o] = true
-						popNodes = append(popNodes, n.ID)
+				if as, ok := n.Ast.(*ast.AssignStmt); ok && len(as.Rhs) == len(as.Lhs) {
+					// n := f.PopFront(), or the parameter binding of a spliced-in helper: u, n := u, f.PopFront()
+					bound := false
+					for i, rh := range as.Rhs {
+						if ast.Unparen(rh) == ast.Expr(pc) && (len(as.Lhs) == 1 || n.Synth != "") {
+							if o := objOf(info, as.Lhs[i]); o != nil {
+								popVars[o] = true
+								popNodes = append(popNodes, n.ID)
+								popLhs[n.ID] = as.Lhs[i]
+								bound = true
+							}
+						}
+					}
+					if bound {
 						continue
 					}
 				}
@@ -770,7 +861,10 @@ func c02Unlink(p *Prog, r *Report) {
 		}
 		handled := f.Match(func(n *GNode) bool {
 			for _, c := range callsIn(n.Ast, false) {
-				if unl.CallUses(fi, c, func(e ast.Expr) bool { o := objOf(info, e); return o != nil && popVars[o] }) {
+				if unl.CallUses(fi, c, func(e ast.Expr) bool {
+					o := objOf(info, e)
+					return o != nil && (popVars[o] || popVars[f.CanonObj(o)])
+				}) {
 					return true
 				}
 			}
@@ -779,7 +873,7 @@ func c02Unlink(p *Prog, r *Report) {
 				if c, ok := ast.Unparen(as.Rhs[0]).(*ast.CallExpr); ok {
 					if id, ok := c.Fun.(*ast.Ident); ok && id.Name == "append" {
 						for _, a := range c.Args[1:] {
-							if !popVars[objOf(info, a)] {
+							if ao := objOf(info, a); ao == nil || !(popVars[ao] || popVars[f.CanonObj(ao)]) {
 								continue
 							}
 							// collected: counts only if the collector is certainly drained afterwards
@@ -814,7 +908,7 @@ func c02Unlink(p *Prog, r *Report) {
 		hs := setOf(handled)
 		for i, pid := range popNodes {
 			as := f.Nodes[pid].Ast.(*ast.AssignStmt)
-			nodeObj := objOf(info, as.Lhs[0])
+			nodeObj := objOf(info, popLhs[pid])
 			cons := fmt.Sprintf("%s#unlink/%d", k, i+1)
 			reach := f.Reach(f.succsOf(pid), func(x *GNode) bool { return hs[x.ID] }, func(from *GNode, e Edge) bool {
 				if from.IsCond {
@@ -836,7 +930,7 @@ func c02Unlink(p *Prog, r *Report) {
 				}
 			}
 			for _, other := range popNodes {
-				if reach[other] && objOf(info, f.Nodes[other].Ast.(*ast.AssignStmt).Lhs[0]) == nodeObj {
+				if reach[other] && objOf(info, popLhs[other]) == nodeObj {
 					bad = p.pos(f.Nodes[other].Ast) + " (overwritten by the next pop)"
 				}
 			}
